@@ -64,12 +64,17 @@ pub enum Opt {
     DotsPred,
     /// `bound(W_l<u8>)`: a type that does not mention any parameter
     TypeNoParam,
+    /// `bound(W_l<T>, ..)`: a `Type` entry next to the default marker - contributes `W_l<T>: Trait` AND continues
+    TypeDots,
 }
 impl Opt {
-    pub const ALL: [Opt; 8] = [Opt::Absent, Opt::Empty, Opt::Pred, Opt::Dots, Opt::PredDots, Opt::Type, Opt::DotsPred, Opt::TypeNoParam];
+    pub const ALL: [Opt; 9] = [Opt::Absent, Opt::Empty, Opt::Pred, Opt::Dots, Opt::PredDots, Opt::Type, Opt::DotsPred, Opt::TypeNoParam, Opt::TypeDots];
     pub const THREE: [Opt; 3] = [Opt::Absent, Opt::Pred, Opt::PredDots];
+    /// the options that differ in WHAT a level does (stop / continue x nothing / predicate / type); the remaining ones
+    /// are other spellings of these
+    pub const CORE: [Opt; 6] = [Opt::Empty, Opt::Pred, Opt::Dots, Opt::PredDots, Opt::Type, Opt::TypeDots];
     fn continues(self) -> bool {
-        matches!(self, Opt::Absent | Opt::Dots | Opt::PredDots | Opt::DotsPred)
+        matches!(self, Opt::Absent | Opt::Dots | Opt::PredDots | Opt::DotsPred | Opt::TypeDots)
     }
     fn text(self, n: usize) -> Option<String> {
         Some(match self {
@@ -81,6 +86,7 @@ impl Opt {
             Opt::Type => format!("bound(W{n}<T>)"),
             Opt::DotsPred => format!("bound(.., T: M{n})"),
             Opt::TypeNoParam => format!("bound(W{n}<u8>)"),
+            Opt::TypeDots => format!("bound(W{n}<T>, ..)"),
         })
     }
     fn short(self) -> &'static str {
@@ -93,6 +99,7 @@ impl Opt {
             Opt::Type => "bound(Ty)",
             Opt::DotsPred => "bound(..,P)",
             Opt::TypeNoParam => "bound(Ty<u8>)",
+            Opt::TypeDots => "bound(Ty,..)",
         }
     }
 }
@@ -170,6 +177,8 @@ pub struct Case {
     pub key_on: Option<Tr>,
     /// a second attribute of the probed field carrying `key = ..` as well
     pub key_on2: Option<Tr>,
+    /// the custom comparisons are written `by = ..` instead of `key = ..`
+    pub key_by: bool,
     /// Default configs: the probed field carries an explicit value `#[default(F1::new())]`
     pub dvalue: bool,
     /// Debug configs: the probed field carries `#[debug(transparent)]`
@@ -188,7 +197,7 @@ fn bound_arg(o: Opt, n: usize) -> Option<String> {
 }
 
 /// Render attribute + item text for a configuration and an option per slot.
-fn render(cfg: &Config, opts: &[Opt], key_on: Option<Tr>, key_on2: Option<Tr>, dvalue: bool, dtransparent: bool) -> (String, String) {
+fn render(cfg: &Config, opts: &[Opt], key_on: Option<Tr>, key_on2: Option<Tr>, key_by: bool, dvalue: bool, dtransparent: bool) -> (String, String) {
     let at = |place: Place, kind: &Kind| -> Option<(usize, Opt)> { cfg.slots.iter().position(|s| s.place == place && &s.kind == kind).map(|i| (i, opts[i])) };
     // derive_ex argument list for a placement; `always` = list every derived trait
     let list = |place: Place, always: bool| -> Option<String> {
@@ -221,7 +230,7 @@ fn render(cfg: &Config, opts: &[Opt], key_on: Option<Tr>, key_on2: Option<Tr>, d
             }
             if let Kind::Helper(h) = &s.kind {
                 let b = bound_arg(opts[i], i);
-                let key = if place == Place::Field && (key_on.map(|k| k.attr() == h).unwrap_or(false) || key_on2.map(|k| k.attr() == h).unwrap_or(false)) { Some("key = $.k()".to_string()) } else { None };
+                let key = if place == Place::Field && (key_on.map(|k| k.attr() == h).unwrap_or(false) || key_on2.map(|k| k.attr() == h).unwrap_or(false)) { Some(if key_by { "by = by_fn".to_string() } else { "key = $.k()".to_string() }) } else { None };
                 if h == "default" {
                     // on the default variant the marker itself is required
                     let val = if dvalue && place == Place::Field { "F1::new()" } else { "_" };
@@ -291,7 +300,7 @@ pub enum Exp {
     Field(usize),
 }
 
-pub fn ref_bounds(cfg: &Config, opts: &[Opt], key_on: Option<Tr>, key_on2: Option<Tr>, dvalue: bool, dtransparent: bool, t: &str) -> BTreeSet<Exp> {
+pub fn ref_bounds(cfg: &Config, opts: &[Opt], key_on: Option<Tr>, key_on2: Option<Tr>, key_by: bool, dvalue: bool, dtransparent: bool, t: &str) -> BTreeSet<Exp> {
     let mut out = BTreeSet::new();
     out.insert(Exp::Decl);
     let tr = Tr::from_name(t);
@@ -329,7 +338,7 @@ pub fn ref_bounds(cfg: &Config, opts: &[Opt], key_on: Option<Tr>, key_on2: Optio
                 Opt::Pred | Opt::PredDots | Opt::DotsPred => {
                     out.insert(Exp::Pred(i));
                 }
-                Opt::Type => {
+                Opt::Type | Opt::TypeDots => {
                     out.insert(Exp::Ty(i));
                 }
                 Opt::TypeNoParam => {
@@ -348,9 +357,10 @@ pub fn ref_bounds(cfg: &Config, opts: &[Opt], key_on: Option<Tr>, key_on2: Optio
     // the probed field's comparator selection (comparison family only)
     let (cut, probed_used) = match (tr, key_on) {
         (Some(tr), Some(k)) => {
-            let mut combo = Combo::PLAIN.with(k, Arg::Key);
+            let arg = if key_by { Arg::By } else { Arg::Key };
+            let mut combo = Combo::PLAIN.with(k, arg);
             if let Some(k2) = key_on2 {
-                combo = combo.with(k2, Arg::Key);
+                combo = combo.with(k2, arg);
             }
             match select(&combo, tr) {
                 Sel::Key(a) | Sel::By(a) => (Some(a), false),
@@ -498,17 +508,21 @@ fn gen(ch: &mut Ch, cfgs: &[Config], plan: &Plan) -> Option<Case> {
     let cmp_helpers: Vec<Tr> = cfg.slots.iter().filter(|s| s.place == Place::Field).filter_map(|s| if let Kind::Helper(h) = &s.kind { Tr::ALL.iter().copied().find(|t| t.attr() == h) } else { None }).collect();
     let mut key_on = None;
     let mut key_on2 = None;
+    let mut key_by = false;
     if !cmp_helpers.is_empty() && mode == 0 {
         let k = ch.pick(cmp_helpers.len() + 1);
         if k > 0 {
             key_on = Some(cmp_helpers[k - 1]);
+            // the custom comparison written as `key = ..` or as `by = ..`
+            key_by = ch.flag();
+            let arg = if key_by { Arg::By } else { Arg::Key };
             // the combination must be accepted for every derived comparison trait
-            let mut combo = Combo::PLAIN.with(cmp_helpers[k - 1], Arg::Key);
+            let mut combo = Combo::PLAIN.with(cmp_helpers[k - 1], arg);
             // optionally a second, less specific attribute with a key of its own
             let k2 = ch.pick(cmp_helpers.len() - k + 1);
             if k2 > 0 {
                 key_on2 = Some(cmp_helpers[k + k2 - 1]);
-                combo = combo.with(cmp_helpers[k + k2 - 1], Arg::Key);
+                combo = combo.with(cmp_helpers[k + k2 - 1], arg);
             }
             for d in &cfg.derived {
                 if let Some(t) = Tr::from_name(d) {
@@ -539,7 +553,8 @@ fn gen(ch: &mut Ch, cfgs: &[Config], plan: &Plan) -> Option<Case> {
             let still_needed = k - j - 1;
             let avail = n - start - still_needed;
             let p = start + ch.pick(avail);
-            opts[p] = Opt::ALL[1 + ch.pick(Opt::ALL.len() - 1)];
+            // quick tier: several deviations at once range over the core options, a single deviation over all of them
+            opts[p] = if k >= 2 && plan.max_dev <= 2 { *ch.of(&Opt::CORE) } else { Opt::ALL[1 + ch.pick(Opt::ALL.len() - 1)] };
             start = p + 1;
         }
         dev = k;
@@ -566,9 +581,9 @@ fn gen(ch: &mut Ch, cfgs: &[Config], plan: &Plan) -> Option<Case> {
     if nogen != 0 && !(mode == 0 && key_on.is_none() && !dvalue && !dtransparent && dev <= plan.max_dev - 1) {
         return None;
     }
-    let (attr, item) = render(cfg, &opts, key_on, key_on2, dvalue, dtransparent);
+    let (attr, item) = render(cfg, &opts, key_on, key_on2, key_by, dvalue, dtransparent);
     let (attr, item) = (spell_param(&attr, nogen), spell_param(&item, nogen));
-    Some(Case { cfg: ci, vector: ch.vector(), opts, key_on, key_on2, dvalue, dtransparent, entry, nogen, attr, item })
+    Some(Case { cfg: ci, vector: ch.vector(), opts, key_on, key_on2, key_by, dvalue, dtransparent, entry, nogen, attr, item })
 }
 
 /// rewrites a text over the parameter `T` for the lifetime-only (1) / parameterless (2) variants
@@ -613,7 +628,7 @@ fn evaluate(cfg: &Config, c: &Case, templates: &BTreeMap<String, Vec<String>>) -
     };
     let mut per_trait = Vec::new();
     for (k, d) in cfg.derived.iter().enumerate() {
-        let mut exp = ref_bounds(cfg, &c.opts, c.key_on, c.key_on2, c.dvalue, c.dtransparent, d);
+        let mut exp = ref_bounds(cfg, &c.opts, c.key_on, c.key_on2, c.key_by, c.dvalue, c.dtransparent, d);
         if c.nogen != 0 {
             // no field type mentions a type parameter: there is no default bound
             exp.retain(|e| !matches!(e, Exp::Field(_)));
@@ -651,10 +666,10 @@ fn describe(cfg: &Config, c: &Case) -> String {
         }
     }
     if let Some(k) = c.key_on {
-        v.push(format!("field:#[{}(key)]", k.attr()));
+        v.push(format!("field:#[{}({})]", k.attr(), if c.key_by { "by" } else { "key" }));
     }
     if let Some(k) = c.key_on2 {
-        v.push(format!("field:#[{}(key)]", k.attr()));
+        v.push(format!("field:#[{}({})]", k.attr(), if c.key_by { "by" } else { "key" }));
     }
     if c.dvalue {
         v.push("field:#[default(value)]".into());
@@ -707,9 +722,10 @@ pub fn run(ctx: &Ctx, rep: &mut Report) {
         let key_on2 = cs["key_on2"].as_str().and_then(|k| Tr::ALL.iter().copied().find(|t| t.attr() == k));
         let dtransparent = cs["dtransparent"].as_bool().unwrap_or(false);
         let nogen = cs["nogen"].as_u64().unwrap_or(0) as u8;
-        let (attr, item) = render(&cfgs[ci], &opts, key_on, key_on2, dvalue, dtransparent);
+        let key_by = cs["key_by"].as_bool().unwrap_or(false);
+        let (attr, item) = render(&cfgs[ci], &opts, key_on, key_on2, key_by, dvalue, dtransparent);
         let (attr, item) = (spell_param(&attr, nogen), spell_param(&item, nogen));
-        let c = Case { cfg: ci, vector: vec![], opts, key_on, key_on2, dvalue, dtransparent, entry, nogen, attr, item };
+        let c = Case { cfg: ci, vector: vec![], opts, key_on, key_on2, key_by, dvalue, dtransparent, entry, nogen, attr, item };
         let a = format!("{:?}", evaluate(&cfgs[ci], &c, &templates));
         let b = format!("{:?}", evaluate(&cfgs[ci], &c, &templates));
         assert_eq!(a, b, "replay observations differ between two runs");
@@ -763,7 +779,7 @@ pub fn run(ctx: &Ctx, rep: &mut Report) {
                 symptom: "expansion-failed".into(),
                 atoms: mk_atoms(None),
                 what: format!("{}: {}", describe(cfg, c), first_line(m)),
-                detail: json!({"vector": c.vector, "config": cfg.name, "opts": c.opts.iter().map(|o| Opt::ALL.iter().position(|x| x == o).unwrap()).collect::<Vec<_>>(), "key_on": c.key_on.map(|k| k.attr()), "key_on2": c.key_on2.map(|k| k.attr()), "dvalue": c.dvalue, "dtransparent": c.dtransparent, "nogen": c.nogen, "entry": c.entry.name(), "attr": c.attr, "item": c.item, "observed": m}),
+                detail: json!({"vector": c.vector, "config": cfg.name, "opts": c.opts.iter().map(|o| Opt::ALL.iter().position(|x| x == o).unwrap()).collect::<Vec<_>>(), "key_on": c.key_on.map(|k| k.attr()), "key_by": c.key_by, "key_on2": c.key_on2.map(|k| k.attr()), "dvalue": c.dvalue, "dtransparent": c.dtransparent, "nogen": c.nogen, "entry": c.entry.name(), "attr": c.attr, "item": c.item, "observed": m}),
                 standalone: None,
             }),
             Ok(ev) => {
@@ -773,7 +789,7 @@ pub fn run(ctx: &Ctx, rep: &mut Report) {
                             symptom: "trait-not-generated".into(),
                             atoms: mk_atoms(Some(d)),
                             what: format!("{} trait {}: {}", describe(cfg, c), d, first_line(m)),
-                            detail: json!({"vector": c.vector, "config": cfg.name, "opts": c.opts.iter().map(|o| Opt::ALL.iter().position(|x| x == o).unwrap()).collect::<Vec<_>>(), "key_on": c.key_on.map(|k| k.attr()), "key_on2": c.key_on2.map(|k| k.attr()), "dvalue": c.dvalue, "dtransparent": c.dtransparent, "nogen": c.nogen, "entry": c.entry.name(), "attr": c.attr, "item": c.item, "trait": d, "observed": m}),
+                            detail: json!({"vector": c.vector, "config": cfg.name, "opts": c.opts.iter().map(|o| Opt::ALL.iter().position(|x| x == o).unwrap()).collect::<Vec<_>>(), "key_on": c.key_on.map(|k| k.attr()), "key_by": c.key_by, "key_on2": c.key_on2.map(|k| k.attr()), "dvalue": c.dvalue, "dtransparent": c.dtransparent, "nogen": c.nogen, "entry": c.entry.name(), "attr": c.attr, "item": c.item, "trait": d, "observed": m}),
                             standalone: None,
                         }),
                         Ok(v) => {
@@ -786,7 +802,7 @@ pub fn run(ctx: &Ctx, rep: &mut Report) {
                                         symptom: "where-clause-differs-from-priority-rule".into(),
                                         atoms: mk_atoms(Some(d)),
                                         what: format!("{} impl #{} of {}: missing {:?}, unexpected {:?}", describe(cfg, c), n, d, missing, extra),
-                                        detail: json!({"vector": c.vector, "config": cfg.name, "opts": c.opts.iter().map(|o| Opt::ALL.iter().position(|x| x == o).unwrap()).collect::<Vec<_>>(), "key_on": c.key_on.map(|k| k.attr()), "key_on2": c.key_on2.map(|k| k.attr()), "dvalue": c.dvalue, "dtransparent": c.dtransparent, "nogen": c.nogen, "entry": c.entry.name(), "attr": c.attr, "item": c.item, "trait": d, "impl_index": n, "expected_where": exp, "observed_where": got}),
+                                        detail: json!({"vector": c.vector, "config": cfg.name, "opts": c.opts.iter().map(|o| Opt::ALL.iter().position(|x| x == o).unwrap()).collect::<Vec<_>>(), "key_on": c.key_on.map(|k| k.attr()), "key_by": c.key_by, "key_on2": c.key_on2.map(|k| k.attr()), "dvalue": c.dvalue, "dtransparent": c.dtransparent, "nogen": c.nogen, "entry": c.entry.name(), "attr": c.attr, "item": c.item, "trait": d, "impl_index": n, "expected_where": exp, "observed_where": got}),
                                         standalone: None,
                                     });
                                 }
